@@ -114,25 +114,41 @@ partial def allDecF : F Rat → Bool
   | .cons d t r => (showDec? d).isSome && allDec t && allDecF r
 end
 
-/-- `float(str)` for `[+-]digits[.digits]` (at least one digit); everything else is a `ValueError`. -/
+/-- `float(str)` for `[+-]digits[.digits][(e|E)[+-]digits]` (at least one mantissa digit); everything else
+the driver treats as a `ValueError` (Python also accepts `inf`, `nan`, `_` separators and non-ASCII digits:
+those tokens are exercised by the oracle only). -/
 def parseDec (s : List Char) : Option Rat :=
   let (neg, body) := match s with
     | '-' :: r => (true, r)
     | '+' :: r => (false, r)
     | r => (false, r)
-  let ip := body.takeWhile Char.isDigit
-  let rest := body.drop ip.length
+  let mant := body.takeWhile (fun c => c != 'e' && c != 'E')
+  let expPart := body.drop mant.length
+  let exp? : Option Int := match expPart with
+    | [] => some 0
+    | _ :: e =>
+      let (eneg, ed) := match e with
+        | '-' :: r => (true, r)
+        | '+' :: r => (false, r)
+        | r => (false, r)
+      if ed.isEmpty || !ed.all Char.isDigit then none
+      else
+        let v : Nat := ed.foldl (fun acc c => acc * 10 + (c.toNat - 48)) 0
+        some (if eneg then -(Int.ofNat v) else Int.ofNat v)
+  let ip := mant.takeWhile Char.isDigit
+  let rest := mant.drop ip.length
   let fp? : Option (List Char) := match rest with
     | [] => some []
     | '.' :: f => if f.all Char.isDigit then some f else none
     | _ => none
-  match fp? with
-  | none => none
-  | some fp =>
+  match fp?, exp? with
+  | some fp, some ex =>
     if ip.isEmpty && fp.isEmpty then none else
     let v : Nat := (ip ++ fp).foldl (fun acc c => acc * 10 + (c.toNat - 48)) 0
     let r : Rat := mkRat (Int.ofNat v) (10 ^ fp.length)
+    let r := if ex ≥ 0 then r * (10 : Rat) ^ ex.toNat else r / (10 : Rat) ^ (-ex).toNat
     some (if neg then -r else r)
+  | _, _ => none
 
 def showE (r : Except Err String) : String :=
   match r with
